@@ -163,6 +163,13 @@ class Ctx:
     def _validate_file(self, path, pure, trace_module, cfg, timeout):
         lines = open(path, errors='replace').read().splitlines()
         lines = [l for l in lines if l.strip()]
+        # a driver that died without being able to finish its trace (e.g. killed inside the library): make that visible to the
+        # specification as a crash event instead of a parse error
+        if not lines or not lines[0].startswith('{"e":"reset"'):
+            lines = ['{"e":"reset","drv":"?","x":0,"seed":"0"}'] + lines
+        if lines and not lines[-1].rstrip().endswith('}'):
+            lines[-1] = '{"e":"crash","sig":-2,"in":"trace truncated: the driver died while writing"}'
+        open(path, 'w').write('\n'.join(lines) + '\n')
         self._account(lines)
         self.trace_stats['files'] += 1
         offset = 0
